@@ -370,9 +370,10 @@ def classify(which, e, r, baseline=None):
     asan = [s for s in san if s[0].startswith("asan|") and s[0] not in baseline["asan"]]
     lsan = [s for s in san if s[0].startswith("lsan|") and s[0] not in baseline["lsan"]]
     if r.get("hard_timeout"):
-        if r.get("rerun_also_timed_out"):
+        if r.get("rerun_also_timed_out") and (r.get("hard_timeout") == 2 or r.get("cpu_ms", 0) > 0.5 * r.get("ms", 1)
+                                             or r.get("gdb")):
             pk = parked_functions(r.get("gdb", ""))
-            return [("hang", "the session did not finish within the hard limit in two independent runs (%d ms wall, %d ms "
+            return [("hang", "the session did not finish in two independent runs (stopped after %d ms wall, %d ms "
                              "CPU: %s); progress '%s' shows the call that never returned; threads in: %s"
                      % (r.get("ms", 0), r.get("cpu_ms", 0),
                         "busy-waiting" if r.get("cpu_ms", 0) > 0.5 * r.get("ms", 1) else "blocked",
@@ -555,9 +556,9 @@ def run(chk, tier, replay=None):
     _, _, ex = explore(chk, "enc", tier, enc_opts(), workers, scale=scale)
     ex_all &= ex
     ivf = tiny_ivf(chk.dir)
-    _, _, ex = explore(chk, "dec", tier, ["ivf=" + ivf, "threads=1", "frames=2", "hard_s=150"], workers, scale=scale, label="dec-threads1")
+    _, _, ex = explore(chk, "dec", tier, ["ivf=" + ivf, "threads=1", "frames=2", "hard_s=240", "cpu_s=60"], workers, scale=scale, label="dec-threads1")
     ex_all &= ex
-    _, _, ex = explore(chk, "dec", tier, ["ivf=" + ivf, "threads=2", "frames=2", "hard_s=150"], workers, scale=scale, label="dec-threads2",
+    _, _, ex = explore(chk, "dec", tier, ["ivf=" + ivf, "threads=2", "frames=2", "hard_s=240", "cpu_s=60"], workers, scale=scale, label="dec-threads2",
                        mt_prefix=True)
     ex_all &= ex
     if ex_all:
@@ -586,9 +587,71 @@ def root_cause_of(key):
 
 
 def root_causes():
+    """(regex over the key, one-line root cause); first match wins.  Written after triaging the campaign."""
+    E1 = ("ENC-1 svt_enc_handle_dctor -> svt_enc_handle_stop_threads dereferences scs_instance_array[0] unconditionally: any "
+          "failure inside svt_enc_handle_ctor (EB_NEW runs the dctor on the partially built handle) crashes "
+          "[EbEncHandle.c:743]; covers ~all 58469 k of init_handle")
     return [
-        (r"\|returns-success$", "the creation primitive's return value is ignored (svt_create_mutex/svt_create_semaphore "
-                                 "discard pthread_mutex_init/sem_init results) or an allocation result is not checked"),
+        (r"^C16\|init_handle\|[^|]+\|svt_enc_handle_stop_threads$", E1),
+        (r"^C16\|init_handle\|init_svt_av1_encoder_handle\|svt_av1_enc_deinit$",
+         "ENC-2 svt_av1_enc_init_handle mallocs the component, and when EB_NEW's calloc of the handle fails calls "
+         "svt_av1_enc_deinit() on it while p_component_private is still uninitialised [EbEncHandle.c:1944 -> 1885]"),
+        (r"^C16\|init_handle\|svt_av1_enc_init_handle\|leak$",
+         "ENC-3 the process-global lp_group (EB_MALLOC in svt_av1_enc_init_handle) stays allocated when init_handle fails "
+         "(no handle exists through which it could be freed); bounded: one block"),
+        (r"^C16\|init_handle\|create_stats_buffer\|returns-success$",
+         "ENC-4 encode_context_ctor ignores create_stats_buffer()'s result [EbEncodeContext.c:188]"),
+        (r"^C16\|set_parameter\|prediction_structure_ctor\|prediction_structure_dctor$",
+         "ENC-5 prediction_structure_dctor walks pred_struct_entry_ptr_array[i] although EB_CALLOC_2D's second "
+         "allocation (p2d[0]) failed -> pe[i] NULL/garbage [EbPredictionStructure.c:651]"),
+        (r"^C16\|init\|(svt_av1_enc_init|create_pa_ref_buf_descs|svt_system_resource_ctor|svt_muxing_queue_ctor|"
+         r"svt_circular_buffer_ctor|svt_reference_object_creator|svt_reference_object_ctor|svt_pa_reference_object_creator|"
+         r"svt_pa_reference_object_ctor|svt_picture_buffer_desc_ctor)\|returns-success$",
+         "ENC-6 svt_av1_enc_init ignores the return values of create_ref_buf_descs / create_down_scaled_buf_descs / "
+         "create_pa_ref_buf_descs [EbEncHandle.c:1304-1309]: every failure while the reference / PA-reference pools are "
+         "built is swallowed and init reports success"),
+        (r"^C16\|init\|svt_av1_alloc_restoration_struct\|returns-success$",
+         "ENC-7 svt_av1_alloc_restoration_buffers overwrites return_error in its per-plane loop: a failure for plane 0/1 is "
+         "lost [EbRestoration.c:1873]"),
+        (r"^C16\|init\|svt_av1_hash_table_create\|returns-success$",
+         "ENC-8 picture_control_set_ctor ignores svt_av1_hash_table_create()'s result [EbPictureControlSet.c:1055]"),
+        (r"^C16\|init\|(picture_parent_control_set_ctor|svt_av1_alloc_restoration_buffers)\|picture_parent_control_set_dctor$",
+         "ENC-9 picture_parent_control_set_ctor gets av1_cm with EB_MALLOC_ARRAY (uninitialised); a later failure makes "
+         "the dctor free the garbage rst_info[].unit_info / stripe_boundary_* / frame_to_show pointers "
+         "[EbPictureControlSet.c:1133-1139]"),
+        (r"^C16\|init\|enc_dec_segments_ctor\|enc_dec_segments_dctor$",
+         "ENC-10 enc_dec_segments_dctor indexes row_array[] although its allocation (or an earlier one) failed "
+         "[EbEncDecSegments.c:20]"),
+        (r"^C16\|init\|mode_decision_configuration_context_ctor\|mode_decision_configuration_context_dctor$",
+         "ENC-11 mode_decision_configuration_context_dctor dereferences mdc_blk_ptr->av1xd with mdc_blk_ptr NULL "
+         "[EbModeDecisionConfigurationProcess.c:401]"),
+        (r"^C16\|init\|[^|]+\|mode_decision_context_dctor$",
+         "ENC-12 mode_decision_context_dctor: md_blk_arr_nsq / md_local_blk_unit come from EB_MALLOC_ARRAY "
+         "(uninitialised) and candidate_buffer_tx_depth_1/2 are dereferenced unguarded: any failure after them makes the "
+         "dctor free garbage palette_info.color_idx_map pointers or dereference NULL [EbModeDecisionProcess.c:29-45]"),
+        (r"\|svt_create_(mutex|semaphore):(pthread_mutex_init|sem_init)\|returns-success$",
+         "OS-1 svt_create_mutex / svt_create_semaphore discard the result of pthread_mutex_init / sem_init "
+         "[EbThreads.c:211,304] (cannot fail on glibc for these arguments; POSIX allows ENOMEM/EAGAIN)"),
+        (r"^C16\|dec_init_handle\|svt_av1_dec_init_handle\|returns-success$",
+         "DEC-1 svt_dec_handle_ctor does not check malloc of the memory-map head (dec_handle_ptr->memory_map) "
+         "[EbDecHandle.c:109]"),
+        (r"^C16\|dec_frame\|[^|]+\|(svt_block_on_mutex|svt_post_semaphore)$",
+         "DEC-2 after a failed first svt_av1_dec_frame with threads>1, svt_av1_dec_deinit calls dec_sync_all_threads "
+         "although the thread contexts / semaphores / mutexes were never (completely) created [EbDecHandle.c:647 -> "
+         "EbDecProcess.c:1378-1411] (same defect as C15 'teardown before the first frame with threads>1')"),
+        (r"^C16\|dec_frame\|(realloc_parse_memory|reallocate_parse_context_memory|dec_system_resource_init|init_dec_mod_ctxt)"
+         r"\|", "DEC-3 read_uncompressed_header ignores the results of realloc_parse_memory() and dec_system_resource_init() "
+                "(which itself ignores init_dec_mod_ctxt()) [EbDecParseObu.c:2088]: decoding continues on freed (EB_MALLOC_DEC "
+                "frees the block when the map node cannot be allocated) or NULL buffers"),
+        (r"^C16\|dec_frame\|dec_mem_init\|.*init_main_frame_ctxt$",
+         "DEC-4 EB_MALLOC_DEC frees the block but leaves the dangling pointer when its map node cannot be allocated; "
+         "dec_mem_init/init_main_frame_ctxt then use it [EbDecMemInit.c:300]"),
+        (r"^C16\|dec_frame\|svt_cdef_frame\|", "DEC-5 svt_cdef_frame does not check svt_aom_malloc results for its line/col "
+                                                 "buffers [EbDecCdef.c:616-651]"),
+        (r"^C16\|dec_frame\|(check_add_tplmv_buf|intra_frame_mode_info)\|returns-success$",
+         "DEC-6 allocation failure inside a void/ignored helper (check_add_tplmv_buf, intra_frame_mode_info's palette "
+         "colour map) is not propagated: svt_av1_dec_frame reports success"),
+        (r"\|returns-success$", "an allocation/creation result is not checked or not propagated"),
     ]
 
 
@@ -602,7 +665,7 @@ def campaign(argv):
     if which == "enc":
         opts = enc_opts()
     else:
-        opts = ["ivf=" + tiny_ivf(chk.dir), "threads=2", "frames=2", "hard_s=150"]
+        opts = ["ivf=" + tiny_ivf(chk.dir), "threads=2", "frames=2", "hard_s=240", "cpu_s=60"]
 
     def choose(events):
         if mode == "all":
@@ -614,7 +677,7 @@ def campaign(argv):
         return plan(events, "campaign", chk.rng, 1.0, which)[0]
 
     if which == "dec":
-        events, found, _ = explore(chk, which, "campaign", opts[:1] + ["threads=1", "frames=2", "hard_s=150"], workers,
+        events, found, _ = explore(chk, which, "campaign", opts[:1] + ["threads=1", "frames=2", "hard_s=240", "cpu_s=60"], workers,
                                    ks_override=lambda ev: [e.k for e in ev], label="dec-threads1")
         ev2, found2, _ = explore(chk, which, "campaign", opts, workers, ks_override=lambda ev: [e.k for e in ev],
                                  label="dec-threads2", mt_prefix=True)
